@@ -256,8 +256,55 @@ def family_data_param():
     return [m.done("data-param")]
 
 
+# ---------------------------------------------------------------- 6. recursive functions: parameters that stay, swap, are shadowed, are functions
+def family_recursion():
+    m = Mod()
+    g = m.g
+    IF = lambda c, t, e: {"k": "if", "c": c, "t": t, "e": e}
+    le0 = lambda x: binop("<=", V(x), I(0))
+    dec = lambda x: binop("-", V(x), I(1))
+    g.add_fn("swap_rec", ["a", "b", "n"], [INT, INT, INT], INT, IF(le0("n"), binop("-", V("a"), V("b")), call("swap_rec", V("b"), V("a"), dec("n"))))
+    g.add_fn("keep_rec", ["k", "n", "acc"], [INT, INT, INT], INT, IF(le0("n"), V("acc"), call("keep_rec", V("k"), dec("n"), binop("+", V("acc"), V("k")))))
+    g.add_fn("shadow_rec", ["k", "n"], [INT, INT], INT,
+             IF(le0("n"), V("k"), {"k": "let", "x": "k", "ty": INT, "e": binop("+", V("k"), I(1)), "body": call("shadow_rec", V("k"), dec("n"))}))
+    g.add_fn("hof_rec", ["f", "n", "x"], [TFn([INT], INT), INT, INT], INT,
+             IF(le0("n"), V("x"), call("hof_rec", V("f"), dec("n"), {"k": "apply", "f": V("f"), "args": [V("x")]})))
+    g.add_fn("two_static", ["a", "b", "n"], [INT, INT, INT], INT, IF(le0("n"), binop("+", binop("*", V("a"), I(10)), V("b")), call("two_static", V("a"), V("b"), dec("n"))))
+    g.add_fn("part_static", ["a", "b", "n"], [INT, INT, INT], INT,
+             IF(le0("n"), binop("+", binop("*", V("a"), I(10)), V("b")), call("part_static", V("a"), binop("+", V("b"), I(1)), dec("n"))))
+    g.add_fn("rot_rec", ["a", "b", "c", "n"], [INT, INT, INT, INT], INT,
+             IF(le0("n"), binop("+", binop("*", V("a"), I(100)), binop("+", binop("*", V("b"), I(10)), V("c"))), call("rot_rec", V("b"), V("c"), V("a"), dec("n"))))
+    g.add_fn("weighted", ["xs", "k"], [TList(INT), INT], INT,
+             {"k": "when", "s": V("xs"), "cs": [
+                 {"p": {"p": "list", "ps": [], "tail": "none"}, "b": I(0)},
+                 {"p": {"p": "list", "ps": [{"p": "var", "x": "h"}], "tail": "var", "x": "t"},
+                  "b": binop("+", binop("*", V("h"), V("k")), call("weighted", V("t"), V("k")))}]})
+    g.add_fn("const_first", ["k", "xs"], [INT, TList(INT)], INT,
+             {"k": "when", "s": V("xs"), "cs": [
+                 {"p": {"p": "list", "ps": [], "tail": "none"}, "b": V("k")},
+                 {"p": {"p": "list", "ps": [{"p": "discard"}], "tail": "var", "x": "t"}, "b": call("const_first", binop("+", V("k"), I(0)), V("t"))}]})
+    grid3 = [[DI(a), DI(b), DI(n)] for a, b, n in [(1, 2, 0), (1, 2, 1), (1, 2, 2), (5, 3, 3), (7, 7, 4), (-2, 9, 5)]]
+    A, B, N = V("arg0"), V("arg1"), V("arg2")
+    m.entry([INT, INT, INT], INT, call("swap_rec", A, B, N), grid3)
+    m.entry([INT, INT, INT], INT, call("swap_rec", B, A, N), grid3)
+    m.entry([INT, INT, INT], INT, call("keep_rec", A, N, B), grid3)
+    m.entry([INT, INT, INT], INT, {"k": "call", "f": "keep_rec", "args": [A, N, B], "pipe": True}, grid3)
+    m.entry([INT, INT, INT], INT, call("shadow_rec", A, N), grid3)
+    m.entry([INT, INT, INT], INT, call("hof_rec", {"k": "fn", "ps": ["z"], "pts": [INT], "ret": INT, "body": binop("+", V("z"), B)}, N, A), grid3)
+    m.entry([INT, INT, INT], INT, call("hof_rec", call("make_adder", binop("+", I(1), binop("*", A, A))), N, B), grid3)
+    m.entry([INT, INT, INT], INT, call("two_static", A, B, N), grid3)
+    m.entry([INT, INT, INT], INT, call("part_static", A, B, N), grid3)
+    m.entry([INT, INT, INT], INT, binop("-", call("two_static", A, B, N), call("two_static", B, A, N)), grid3)
+    m.entry([INT, INT, INT], INT, call("rot_rec", A, B, binop("+", A, B), N), grid3)
+    lgrid = [[int_list(), DI(3)], [int_list(1, 2, 3), DI(2)], [int_list(5), DI(-1)], [int_list(1, 1, 1, 1), DI(0)]]
+    m.entry([TList(INT), INT], INT, call("weighted", V("arg0"), V("arg1")), lgrid)
+    m.entry([TList(INT), INT], INT, call("const_first", V("arg1"), V("arg0")), lgrid)
+    m.entry([TList(INT), INT], INT, binop("+", call("weighted", V("arg0"), V("arg1")), call("weighted", V("arg0"), binop("+", V("arg1"), I(1)))), lgrid)
+    return [m.done("recursion")]
+
+
 def all_families():
-    return family_expect_list() + family_cast() + family_trace_only() + family_repeated_constant() + family_data_param()
+    return family_expect_list() + family_cast() + family_trace_only() + family_repeated_constant() + family_data_param() + family_recursion()
 
 
 # ---------------------------------------------------------------- ill-typed table (C06): a value of T1 where T2 is required
